@@ -168,12 +168,16 @@ Definition c05_m_zero (a : arith_in) : Z :=
 
 Definition in_range63 (lo z : Z) : bool := (lo <=? z) && (z <? two63).
 
-(* the proved "sufficient" region, on the numbers as the code sees them (memory in milli-bytes) *)
+(* input ranges of the error analysis, on the numbers as the code sees them (memory in milli-bytes) *)
+Definition c05_ranges (a : arith_in) : bool :=
+  in_range63 0 (a_cpu_req a) && in_range63 0 (1000 * a_mem_req a)
+  && in_range63 1 (a_cpu_cap a) && in_range63 1 (1000 * a_mem_cap a)
+  && (a_thr a <=? two31) && (a_n a <=? two31).
+
+(* the proved "sufficient" region *)
 Definition c05_region (a : arith_in) : bool :=
   if c05_normal a then
-    in_range63 0 (a_cpu_req a) && in_range63 0 (1000 * a_mem_req a)
-    && in_range63 1 (a_cpu_cap a) && in_range63 1 (1000 * a_mem_cap a)
-    && (a_thr a <=? two31) && (a_n a <=? two31)
+    c05_ranges a
     && res_region (a_cpu_req a) (a_cpu_cap a / a_n a)
     && res_region (1000 * a_mem_req a) (1000 * a_mem_cap a / a_n a)
   else if c05_from_zero a && c05_cached a then
